@@ -135,6 +135,10 @@ func HarnessCallback() {
 		vrtAssume(vrtBool("metakey.match"))
 		vrtAssume(string(st.metaCert) != string(st.respCert))
 	}
+	if hist == 1 && vrtBool("issuer.fromhost") {
+		// one provider, two issuers: the earlier session was served under another host
+		vrtHostIssuer = true
+	}
 	p := vrtNewProvider(st)
 	vrtEarlierRequest(p, st, hist)
 
